@@ -8,7 +8,7 @@ CHECKS = {
         "ref": "DESIGN.md 5 C12",
     },
     "C14": {
-        "text": "Kernel-checked for all schedules of the executable L3 model (Close, any number of API callers, rotation goroutine; atomic steps = the code's atomic actions and hook points): calls started after the closed flag is set return ErrClosed and a second Close is a no-op (C14_after_close), writeMu mutual exclusion. For states satisfying the protocol invariant Inv1: no step panics (C14_racing_calls_partial). The model is tied to wal.go/state.go by forcing the same schedules on the real WAL through the verif hook points (every method x window x Close stage, pending rotation, random) and comparing outcomes; model-independent oracles: recover(), deadlock watchdog, ErrClosed after Close, rotation goroutine exit, handle accounting, reopen. Deadlock freedom, rotator exit, handle release and 'only result or ErrClosed' are NOT proved (partial): they are decided by those oracles.",
+        "text": "Kernel-checked for all schedules of the executable L3 model (Close, any number of API callers, rotation goroutine; atomic steps = the code's atomic actions and hook points): calls started after the closed flag is set return ErrClosed and a second Close is a no-op (C14_after_close), writeMu mutual exclusion. For states satisfying the protocol invariant Inv1 (executable, tested, holds initially; inductiveness proved only for pc consistency/roles/mutex): no step panics (C14_racing_calls_partial), some thread is enabled while a caller is unfinished (C14_no_deadlock_partial), the system cannot rest with the rotation goroutine alive after Close (C14_rotator_exits_partial). The model is tied to wal.go/state.go by forcing the same schedules on the real WAL through the verif hook points (every method x window x Close stage, pending rotation, random) and comparing outcomes; model-independent oracles: recover(), deadlock watchdog, ErrClosed after Close, rotation goroutine exit, handle accounting, reopen. Deadlock freedom and rotator exit for all reachable states, handle release and 'only result or ErrClosed' are NOT proved (partial): they are decided by those oracles.",
         "note": "Partial proof: see coq/Props/C14.v header. Found and drove the repair of 4 defects (74e5b3c, b259a49, 52ced73, d688ba5).",
         "technique": "Rocq proof (schedule-quantified invariants) + forced-schedule model/implementation correspondence + oracles",
         "ref": "DESIGN.md 5 C14, 10 conc",
